@@ -8,6 +8,8 @@ use crate::Ctx;
 use n2::verif::facade;
 
 thread_local! {
+    /// Under Miri an invalid `str` is flagged at once (known finding F15); that run covers UTF-8 inputs only.
+    pub static UTF8_ONLY: std::cell::Cell<bool> = const { std::cell::Cell::new(false) };
     pub static DUMP_INPUT: std::cell::Cell<bool> = const { std::cell::Cell::new(false) };
 }
 
@@ -42,6 +44,9 @@ pub fn nth_tokens(mut idx: u64, maxlen: usize) -> Option<Vec<u8>> {
 /// Classify the outcome of loading `bytes` as a manifest.  Returns the parser
 /// state reached (for evidence) or a violation (signature, detail).
 pub fn check_manifest_bytes(name: &str, bytes: &[u8], from_disk: bool) -> Result<String, (String, String)> {
+    if UTF8_ONLY.with(|d| d.get()) && std::str::from_utf8(bytes).is_err() {
+        return Ok("skipped:non-utf8".into());
+    }
     if DUMP_INPUT.with(|d| d.get()) {
         eprintln!("INPUT ({} bytes): {:?}\nHEX: {}", bytes.len(), String::from_utf8_lossy(bytes), hex(&bytes[..bytes.len().min(4000)]));
     }
@@ -209,6 +214,7 @@ pub fn run(ctx: &Ctx, rep: &mut Report) {
     std::fs::create_dir_all(&mdir).unwrap();
     let mut states = std::collections::BTreeSet::new();
     DUMP_INPUT.with(|d| d.set(ctx.only_case.is_some()));
+    UTF8_ONLY.with(|d| d.set(ctx.args.iter().any(|a| a == "--utf8-only")));
     input_loop(ctx, rep, nseq * 2, |idx, ex, rep| {
         if ex {
             let Some(mut bytes) = nth_tokens(idx / 2, maxlen) else { return };
